@@ -51,6 +51,9 @@ type ExecCtx struct {
 	callRecv *Val
 	inlinedFunc bool // body of a named function inlined at a call site
 	factDepth int
+	inDefer  bool
+	confined map[*types.Var]token.Pos
+	confinedDone bool
 }
 
 var NilTerm = &Term{Op: "sym", Name: "$untyped_nil", Sort: "Nil"}
